@@ -31,6 +31,20 @@ REPO_DIR = os.environ.get("VERIF_REPO", "/repo")
 REPO_SRC = os.path.join(REPO_DIR, "src")
 
 
+class FalsyCallable:
+    """a predicate object that is falsy in a boolean context (like a callable collection that is
+    empty): whether a predicate was *given* is a question of `is None`, not of truthiness"""
+
+    def __init__(self, fn: Any) -> None:
+        self.fn = fn
+
+    def __call__(self, *a: Any) -> Any:
+        return self.fn(*a)
+
+    def __bool__(self) -> bool:
+        return False
+
+
 class Violation(Exception):
     """The property is broken on this case."""
 
